@@ -990,6 +990,7 @@ dispatch_write(dispatch_fd_t fd, dispatch_data_t data, dispatch_queue_t queue,
 				handler(NULL, err);
 			});
 			_dispatch_release(queue);
+			_dispatch_io_data_release(data);
 			return;
 		}
 		// Safe to access fd_entry on barrier queue
